@@ -51,7 +51,8 @@ func judgeCanonTerm(c *Ctx, t gen.Term) (string, bool) {
 	}
 	id, plus, exc := parseCanon(r)
 	listed := c.U.ActiveSet[id] || c.U.DepSet[id]
-	okID := id == d.ID
+	// a deprecated X spelled X+ denotes the listed id X-or-later; reporting it unfolded as "X+" is equally canonical
+	okID := id == d.ID || (d.Plus && plus && id+"-or-later" == d.ID)
 	okPlus := plus == d.Plus || (d.Plus && strings.HasSuffix(id, "-or-later"))
 	okExc := exc == d.Exc
 	if !listed || !okID || !okPlus || !okExc {
